@@ -44,6 +44,9 @@ pub struct PanicRec {
     pub msg: String,
     /// "<file under rust/src>::<innermost named library fn>" or "extern" if no library frame
     pub site: String,
+    /// for panics raised in a dependency / the runtime: the innermost frame that is not runtime code
+    /// (who asked for it), e.g. "cbor_event::Deserializer::bytes"; empty for panics located in the library
+    pub via: String,
 }
 
 impl PanicRec {
@@ -80,6 +83,11 @@ pub fn norm_msg(m: &str) -> String {
         Some(i) => &m[..i],
         None => m,
     };
+    // slicing panics quote the offending text: keep the statement only
+    let m = match m.find("; it is inside") {
+        Some(i) => &m[..i],
+        None => m,
+    };
     let mut s = String::new();
     let mut last_hash = false;
     for c in m.chars() {
@@ -104,7 +112,7 @@ pub fn norm_msg(m: &str) -> String {
 }
 
 thread_local! {
-    static LAST_PANIC: RefCell<Option<(String, String, String)>> = RefCell::new(None);
+    static LAST_PANIC: RefCell<Option<(String, String, String, String)>> = RefCell::new(None);
     static SITE_CACHE: RefCell<HashMap<String, String>> = RefCell::new(HashMap::new());
     static IN_GUARD: RefCell<u32> = RefCell::new(0);
 }
@@ -157,6 +165,74 @@ fn site_from_backtrace(bt: &str) -> String {
     }
 }
 
+/// innermost frame that is neither the Rust runtime (std / core / alloc / hashbrown) nor the monitor's
+/// own plumbing: the code that asked for the allocation or raised the panic, as "<crate>/<file>::<fn>"
+/// (closures are attributed to the enclosing named function of the same file). Frames are classified
+/// by their source path: inlined frames carry bare function names in this build.
+pub fn requester_from_backtrace(bt: &str) -> String {
+    let lines: Vec<&str> = bt.lines().collect();
+    let mut i = 0;
+    let mut pending: Option<String> = None; // file label of a closure frame waiting for its named parent
+    while i + 1 < lines.len() {
+        let l = lines[i].trim_start();
+        let nxt = lines[i + 1].trim_start();
+        let pos = match l.find(": ") {
+            Some(p) if p > 0 && l[..p].chars().all(|c| c.is_ascii_digit()) && nxt.starts_with("at ") => p,
+            _ => {
+                i += 1;
+                continue;
+            }
+        };
+        i += 2;
+        let func = &l[pos + 2..];
+        let path = nxt[3..].rsplitn(3, ':').last().unwrap_or("");
+        if path.starts_with("/rustc/") || path.contains("cslmon/src/fw.rs") || path.contains("/hashbrown-") || path.contains("/library/") {
+            continue;
+        }
+        let file_label = if let Some(p) = path.find("/rust/src/") {
+            format!("lib/{}", &path[p + "/rust/src/".len()..])
+        } else if let Some(p) = path.find("/registry/src/") {
+            // <index dir>/<crate>-<version>/src/<file>
+            let rest = &path[p + "/registry/src/".len()..];
+            let mut it = rest.splitn(2, '/');
+            let _index = it.next();
+            let rest = it.next().unwrap_or("");
+            let mut it = rest.splitn(2, '/');
+            let cv = it.next().unwrap_or("");
+            let file = it.next().unwrap_or("").trim_start_matches("src/");
+            let name = match cv.rfind('-') {
+                Some(d) if cv[d + 1..].chars().next().map_or(false, |c| c.is_ascii_digit()) => &cv[..d],
+                _ => cv,
+            };
+            format!("{}/{}", name, file)
+        } else {
+            format!("harness/{}", path.trim_start_matches("./"))
+        };
+        if let Some(pf) = &pending {
+            if *pf != file_label {
+                return format!("{}::?", pf);
+            }
+        }
+        let mut f = func.to_string();
+        if let Some(h) = f.rfind("::h") {
+            if f[h + 3..].chars().all(|c| c.is_ascii_hexdigit()) && f.len() - h == 19 {
+                f.truncate(h);
+            }
+        }
+        if f.contains("{closure") || f.contains("{{closure") {
+            pending = Some(file_label);
+            continue;
+        }
+        let short = short_fn(&f);
+        let last = short.rsplit("::").next().unwrap_or(&short).to_string();
+        return format!("{}::{}", file_label, last);
+    }
+    match pending {
+        Some(pf) => format!("{}::?", pf),
+        None => "unknown".to_string(),
+    }
+}
+
 fn short_fn(f: &str) -> String {
     // remove generic parameter lists
     let mut out = String::new();
@@ -203,6 +279,7 @@ pub fn install_panic_hook() {
         // functions, so its backtrace is walked every time
         let in_lib = loc.contains("/rust/src/");
         let key = format!("{}|{}", loc, norm_msg(&msg));
+        let mut via = String::new();
         let site = SITE_CACHE.with(|c| {
             let mut c = c.borrow_mut();
             if in_lib {
@@ -214,10 +291,12 @@ pub fn install_panic_hook() {
             let s = site_from_backtrace(&bt);
             if in_lib {
                 c.insert(key.clone(), s.clone());
+            } else {
+                via = requester_from_backtrace(&bt);
             }
             s
         });
-        LAST_PANIC.with(|p| *p.borrow_mut() = Some((loc, msg, site)));
+        LAST_PANIC.with(|p| *p.borrow_mut() = Some((loc, msg, site, via)));
     }));
 }
 
@@ -229,14 +308,14 @@ pub fn guard<T>(f: impl FnOnce() -> T) -> Result<T, PanicRec> {
     match r {
         Ok(v) => Ok(v),
         Err(_) => {
-            let (loc, msg, site) =
-                LAST_PANIC.with(|p| p.borrow_mut().take()).unwrap_or(("?".into(), "?".into(), "extern".into()));
+            let (loc, msg, site, via) =
+                LAST_PANIC.with(|p| p.borrow_mut().take()).unwrap_or(("?".into(), "?".into(), "extern".into(), String::new()));
             if loc.starts_with("cslmon/") || loc.starts_with("vkit/") {
                 // a panic in the monitor's own code is a harness error, never an observation
                 eprintln!("HARNESS-BUG panic in monitor code at {}: {}", loc, msg);
                 std::process::exit(3);
             }
-            Err(PanicRec { loc, msg, site })
+            Err(PanicRec { loc, msg, site, via })
         }
     }
 }
@@ -300,6 +379,57 @@ pub fn install_crash_handler(path: &str) {
     }
 }
 
+// ------------------------------------------------------------------------------------------------
+// allocation trap: in a forked child, a request for >= 2^31 bytes (every input is <= 64 KiB) is not
+// passed to the system allocator (whether that aborts depends on the host's overcommit state) but
+// reported, with the code that asked for it, through a pipe; the child then exits.
+
+pub struct TrapAlloc;
+static TRAP_FD: AtomicI32 = AtomicI32::new(-1);
+pub const TRAP_BYTES: usize = 1 << 31;
+
+#[cold]
+fn alloc_trap(size: usize) -> ! {
+    let fd = TRAP_FD.swap(-1, Ordering::SeqCst);
+    if fd >= 0 {
+        let bt = std::backtrace::Backtrace::force_capture().to_string();
+        let who = requester_from_backtrace(&bt);
+        let site = site_from_backtrace(&bt);
+        if std::env::var("CSLMON_BT_DEBUG").is_ok() {
+            let _ = std::fs::write("/tmp/bt-debug.txt", &bt);
+        }
+        let msg = format!("{}|{}|{}\n", who, site, size);
+        unsafe {
+            libc::write(fd, msg.as_ptr() as *const libc::c_void, msg.len());
+        }
+    }
+    unsafe { libc::_exit(65) }
+}
+
+unsafe impl std::alloc::GlobalAlloc for TrapAlloc {
+    unsafe fn alloc(&self, l: std::alloc::Layout) -> *mut u8 {
+        if l.size() >= TRAP_BYTES && TRAP_FD.load(Ordering::Relaxed) >= 0 {
+            alloc_trap(l.size());
+        }
+        std::alloc::System.alloc(l)
+    }
+    unsafe fn alloc_zeroed(&self, l: std::alloc::Layout) -> *mut u8 {
+        if l.size() >= TRAP_BYTES && TRAP_FD.load(Ordering::Relaxed) >= 0 {
+            alloc_trap(l.size());
+        }
+        std::alloc::System.alloc_zeroed(l)
+    }
+    unsafe fn dealloc(&self, p: *mut u8, l: std::alloc::Layout) {
+        std::alloc::System.dealloc(p, l)
+    }
+    unsafe fn realloc(&self, p: *mut u8, l: std::alloc::Layout, n: usize) -> *mut u8 {
+        if n >= TRAP_BYTES && TRAP_FD.load(Ordering::Relaxed) >= 0 {
+            alloc_trap(n);
+        }
+        std::alloc::System.realloc(p, l, n)
+    }
+}
+
 /// Result of running a closure in a forked child.
 #[derive(Debug, Clone, PartialEq)]
 pub enum ForkOutcome {
@@ -307,17 +437,25 @@ pub enum ForkOutcome {
     Exit(i32),
     Signal(i32),
     Timeout,
+    /// the child asked for >= 2^31 bytes: (requesting code, library site, bytes)
+    HugeAlloc(String, String, u64),
 }
 
 /// Run `f` in a forked child (single-threaded process assumed); the closure's return value
 /// (0..=63) becomes the exit status. Used for inputs that may legitimately kill the process.
 pub fn fork_case(timeout_ms: u64, f: impl FnOnce() -> i32) -> ForkOutcome {
     unsafe {
+        let mut fds = [0 as libc::c_int; 2];
+        if libc::pipe(fds.as_mut_ptr()) != 0 {
+            panic!("pipe failed");
+        }
         let pid = libc::fork();
         if pid < 0 {
             panic!("fork failed");
         }
         if pid == 0 {
+            libc::close(fds[0]);
+            TRAP_FD.store(fds[1], Ordering::SeqCst);
             // child: default signal dispositions so the parent sees the real signal
             for s in [libc::SIGSEGV, libc::SIGBUS, libc::SIGABRT, libc::SIGILL, libc::SIGFPE] {
                 libc::signal(s, libc::SIG_DFL);
@@ -334,6 +472,8 @@ pub fn fork_case(timeout_ms: u64, f: impl FnOnce() -> i32) -> ForkOutcome {
             };
             libc::_exit(code);
         }
+        libc::close(fds[1]);
+        let rfd = fds[0];
         let start = std::time::Instant::now();
         let mut status: libc::c_int = 0;
         loop {
@@ -344,6 +484,7 @@ pub fn fork_case(timeout_ms: u64, f: impl FnOnce() -> i32) -> ForkOutcome {
             if start.elapsed().as_millis() as u64 > timeout_ms {
                 libc::kill(pid, libc::SIGKILL);
                 libc::waitpid(pid, &mut status, 0);
+                libc::close(rfd);
                 return ForkOutcome::Timeout;
             }
             // children normally finish in well under a millisecond
@@ -352,6 +493,17 @@ pub fn fork_case(timeout_ms: u64, f: impl FnOnce() -> i32) -> ForkOutcome {
             } else {
                 libc::usleep(200);
             }
+        }
+        let mut buf = [0u8; 1024];
+        let n = if libc::WIFEXITED(status) && libc::WEXITSTATUS(status) == 65 { libc::read(rfd, buf.as_mut_ptr() as *mut libc::c_void, buf.len()) } else { 0 };
+        libc::close(rfd);
+        if n > 0 {
+            let t = String::from_utf8_lossy(&buf[..n as usize]).trim().to_string();
+            let mut p = t.split('|');
+            let who = p.next().unwrap_or("unknown").to_string();
+            let site = p.next().unwrap_or("").to_string();
+            let bytes = p.next().and_then(|x| x.parse::<u64>().ok()).unwrap_or(0);
+            return ForkOutcome::HugeAlloc(who, site, bytes);
         }
         if libc::WIFEXITED(status) {
             ForkOutcome::Exit(libc::WEXITSTATUS(status))
